@@ -432,6 +432,14 @@ class Stmts:
         outs.extend(('fall', None, s) for s in cur)
         return outs
 
+    def loop_ordinal(self, node) -> int:
+        """Syntactic ordinal of a loop: pre-order position among the for/while statements of the function under
+        verification (nested defs excluded); loops of inlined callees get ordinals after those."""
+        k = id(node)
+        if k not in self.loop_ids:
+            self.loop_ids[k] = 1000 + len(self.loop_ids)
+        return self.loop_ids[k]
+
     def loop_invariant(self, ordinal: int):
         con = self.cur_contract
         if con is None:
@@ -462,8 +470,7 @@ class Stmts:
     def invariant_for(self, node, it: VIter, st: State):
         """L2 route: inductive invariant from the sidecar (default True), keyed by loop ordinal."""
         th = self.th
-        ordinal = self.loop_counter
-        self.loop_counter += 1
+        ordinal = self.loop_ordinal(node)
         inv = self.loop_invariant(ordinal)
         assigned = self.assigned_names(node.body + [ast.Assign(targets=[node.target], value=ast.Constant(value=None))])
         props = self.cur_props
@@ -531,8 +538,7 @@ class Stmts:
     def st_While(self, node, st):
         """while with a sidecar invariant (and variant, for termination)."""
         th = self.th
-        ordinal = self.loop_counter
-        self.loop_counter += 1
+        ordinal = self.loop_ordinal(node)
         inv = self.loop_invariant(ordinal)
         var = self.cur_contract.variants.get(ordinal) if self.cur_contract else None
         if inv is None:
@@ -638,7 +644,7 @@ class Stmts:
                     elif fsrc.startswith('list'):
                         vals.append(self.toVal(VTuple((), True), st))
                     else:
-                        vals.append(th.fresh('factory_' + n))
+                        vals.append(th.const(f'factory:{name}.{n}'))
                 elif m.get('default') is not None:
                     old = (self.cur_module, self.spec_mode)
                     ci = self.idx.classes.get(name)
@@ -649,7 +655,7 @@ class Stmts:
                         self.cur_module, self.spec_mode = old
                     vals.append(self.toVal(dv, st))
                 elif not m.get('init', True):
-                    vals.append(th.fresh('uninit_' + n))
+                    vals.append(th.const(f'uninit:{name}.{n}'))
                 else:
                     raise OutOfSubset(f'missing argument {n} for record {name}', node)
             rec = self.make_record(name, vals, st)
